@@ -24,27 +24,22 @@ pub struct Pool<T: Flavor> {
     pub flavor: &'static str,
     pub values: Vec<(GenericPurl<T>, String, Value)>, // value, canonical string, provenance
     seen: HashMap<u64, u8>,
-    derived_per_string: HashMap<u64, u8>,
 }
 
 impl<T: Flavor> Pool<T> {
     pub fn new(flavor: &'static str) -> Self {
-        Pool { flavor, values: Vec::new(), seen: HashMap::new(), derived_per_string: HashMap::new() }
+        Pool { flavor, values: Vec::new(), seen: HashMap::new() }
     }
     /// keep at most two instances per *structure* (the Debug form shows the stored fields, not the
     /// accessor view: two values that the accessors cannot tell apart but that are stored differently
     /// are both kept), so that values reached through different sources are compared with each other
     /// without flooding the pool
-    /// derived values: one instance per (structure, canonical string) is enough, and they are only
-    /// interesting while few values print the same
+    /// derived values follow the same policy as direct ones: at most two instances per stored
+    /// structure (Debug form). A derived value that is stored exactly like a direct one adds nothing;
+    /// one that is stored differently (a stale hidden field, an unnormalised part) is kept whatever
+    /// it prints.
     pub fn add_derived(&mut self, p: GenericPurl<T>, prov: impl FnOnce() -> Value) {
-        let Ok(s) = guarded(|| p.to_string()) else { return };
-        let n = self.derived_per_string.entry(h64(&s)).or_insert(0);
-        if *n >= 3 {
-            return;
-        }
-        *n += 1;
-        self.values.push((p, s, prov()));
+        self.add(p, prov);
     }
 
     pub fn add(&mut self, p: GenericPurl<T>, prov: impl FnOnce() -> Value) {
